@@ -84,7 +84,7 @@ P = {
   "DESIGN.md §4 C09-C11", TECH + "; deviation-bounded enumeration of generated packages + full corpus, relational API-preservation oracle"),
  "C12": (True,
   "All operation histories up to depth 4 (quick) / 5 (thorough) over a three-package world (two packages leading to a third; editable root program; first package as registry package or workspace member) with 2-4 source variants per module are replayed against the real fast-check transform with one shared cache (cold, warm, stale entries arise along the history); after each operation all-or-nothing per package is checked with and without the cache, recorded dependencies of every emitted module are compared with a re-analysis of the emitted text, the with-cache result is compared with the cache-less one, two cache-less runs are compared, and a second pass over the same graph object must change nothing.",
-  "One hand-built world (7 modules, 21 variants, one of them importing the dependency package without exposing it); fast_check_dts is outside it. Each operation rebuilds the graph from the current sources.",
+  "One hand-built world (7 modules, 23 variants: one imports the dependency package without exposing it, one star-re-exports it); fast_check_dts is outside it. Each operation rebuilds the graph from the current sources.",
   "DESIGN.md §4 C12", TECH + "; exhaustive operation histories over source variants with a shared cache, differential oracle against cache-less runs"),
  "C16": (True,
   "ALL star re-export graphs over 3 (quick) / 4 (thorough) modules x own-export assignments are built and the resolved export set of every module is compared with the least fixpoint the ES rules define (own names first, default never re-exported by star, cycles terminate under the watchdog); the symbol tables of the generated C09 packages (incl. dotted namespaces, merged declarations, overloads, expando, class members) and of the symbol spec corpus are checked to be trees consistent with their parent pointers, with sound declaration names / ranges / ids, and go-to-definition is run from every symbol. A complete, process-isolated part enumerates all 1 000 re-export graphs over 3 modules that mix named re-exports (direct and through an import) with export-star, cycles included: exported names against the ES rules, go-to-definition from every symbol and every export must return (a stack overflow of the child process is a violation).",
